@@ -176,3 +176,10 @@ claim("C19", "def-use / delegation checks of SampledKLEnergyClass, ResidualSampl
       "over the samples, the metric from the average of the Hamiltonian's metric with want_metric=True, both divided by the global "
       "sample count; the optimised position excludes the constant keys; moving the expansion point passes residuals and sign flags on "
       "unchanged. Numerical equality with sample averages is not decided.", TRUST, "DESIGN.md section 9.6")
+
+claim("C04", "def-use / dominance check of EnergyAdapter's constant handling",
+      "Decides only the clause 'energies minimised with constant keys never see gradient components for those keys': with constants "
+      "the adapter specialises the operator to the constant part of the full position, optimises position.extract_by_keys(domain keys "
+      "minus constants), stores and evaluates the specialised operator and keeps it in at(); the sampled KL optimises the reduced "
+      "expansion point. Equality of value/Jacobian/metric with the original operator is numerical and not decided.", TRUST,
+      "DESIGN.md section 9.6")
